@@ -27,18 +27,19 @@ func init() {
 		RuleG7, RuleG5, RuleG3)
 	Props["C03"] = spec("static decision of the structural determinism/conformance clauses (DESIGN 4 C03): Fiat-Shamir labels and absorb order equal the specification on both sides (F1,F2), openings absorbed with their own index (F4), canonical encodings absorbed and transcript chaining (F7), serialisation layout D|L|R|a with canonical encoders (D5), results merged in completion order only by commutative-associative combiners, every worker result merged exactly once (G4,G2,G3), no call writes state a later call reads (W2,W3). Byte-for-byte equality with an independent implementation is not decided.",
 		RuleF1F2(), RuleF4(), RuleF7, RuleD5, RuleG4, RuleG2, RuleG3, RuleW2(30), RuleW3)
+	Props["TMP"] = spec("scratch", RuleE2E3, RuleU3, RuleL1, RuleN1N2, RuleU1, RuleZ1, RuleB1, RuleP1, RuleBatchIdx, RuleY1Y2, RuleQ1Q2, RuleS1, RuleK5)
 	Props["C09"] = spec("static decision of the structural clauses of the variable-base MSM (DESIGN 4 C09): points and scalars stay paired through every wrapper, split and chunk (M1); Montgomery flag and task count reach the inner routine (M2); every selectable window width has an implementation with matching constants and array sizes (M3); every chunk is produced exactly once and consumed exactly once, chunk j through channel j (M4); bucket/table indexes v-1 are guarded (M5); length mismatch is an error before any slicing (LG); the sizing loop terminates (T1); goroutines write only their own slots, are joined, channels fit (G1-G5); inputs are not written (W1). The bucket arithmetic and digit recoding are not decided.",
-		RuleM1, RuleM1b, RuleM2, RuleM3, RuleM4, RuleM5, RuleT1, RuleLG([][4]string{{"bandersnatch", "MultiExp", "points", "scalars"}, {"ipa", "commit", "groupElements", "polynomial"}}), RuleG1, RuleG2, RuleG3, RuleG4, RuleG5, RuleW1(nameHas("bandersnatch.msm", "bandersnatch.MultiExp", "bandersnatch.partitionScalars", "banderwagon.Element).MultiExp", "ipa.MultiScalar", "ipa.commit", "batchProjToAffine"), 30))
+		RuleM1, RuleM1b, RuleM2, RuleM3, RuleM4, RuleM5, RuleM8, RuleT1, RuleLG([][4]string{{"bandersnatch", "MultiExp", "points", "scalars"}, {"ipa", "commit", "groupElements", "polynomial"}}), RuleG1, RuleG2, RuleG3, RuleG4, RuleG5, RuleW1(nameHas("bandersnatch.msm", "bandersnatch.MultiExp", "bandersnatch.partitionScalars", "banderwagon.Element).MultiExp", "ipa.MultiScalar", "ipa.commit", "batchProjToAffine"), 30))
 	Props["C15"] = spec("static decision of the structural clauses of scalar-field arithmetic (DESIGN 4 C15): every modulus-derived constant equals the value computed from the decimal modulus (K1), limb k meets limb k in every carry chain, cascade and Montgomery round (K2), operands are not written (W1). Numeric correctness of the algorithms is not decided.",
 		RuleK1K2, RuleW1(nameHas("bandersnatch/fr."), 40))
 	Props["C06"] = spec("static decision of the decoder's structural clauses (DESIGN 4 C06): no untrusted entry point reaches an unchecked or reducing decoder (D1, D3); on the untrusted path success is dominated by exact length, canonical x, on-curve, subgroup test on the same x, and y-bytes equality (D2); the subgroup decision accepts exactly Legendre=+1 of 1-a*x^2 (D4); errors are propagated (D7); decoders do not write their buffer (W1). Square-root and Legendre arithmetic not decided.",
-		RuleD1, RuleD2D3, RuleD4("legendre"), RuleD7(decoderFns, 6), RuleW1(nameHas("banderwagon.Element).SetBytes", "banderwagon.Element).setBytes", "common.Read", "subgroupCheck", "GetPointFromX", "computeY", "SqrtPrecomp"), 8))
+		RuleD1, RuleD2D3, RuleD4("legendre"), RuleD7(decoderFns, 6), RuleD8([][3]string{{"banderwagon", "Element", "setBytes"}, {"banderwagon", "Element", "SetBytesUncompressed"}}), RuleW1(nameHas("banderwagon.Element).SetBytes", "banderwagon.Element).setBytes", "common.Read", "subgroupCheck", "GetPointFromX", "computeY", "SqrtPrecomp"), 8))
 	Props["C10"] = spec("static decision of the (de)serialisation structure (DESIGN 4 C10): reader and writer agree on field order, counts and encoding kinds and with the protocol constants (D5); every point goes through the validating decoder and the scalar through the canonical one whose decision accepts exactly values < r (D1, D4); the EOF probe constrains the byte count (D6); every error on the read and write paths is tested and returned (D7); Write does not modify the proof (W1). Value-level round trip not decided.",
-		RuleD1, RuleD4("canonical"), RuleD5, RuleD6, RuleD7(serdeFns, 9), RuleW1(nameHas("MultiProof).", "IPAProof).", "common.Read"), 8))
+		RuleD1, RuleD4("canonical"), RuleD5, RuleD6, RuleD7(serdeFns, 9), RuleD8([][3]string{{"", "MultiProof", "Read"}, {"ipa", "IPAProof", "Read"}}), RuleW1(nameHas("MultiProof).", "IPAProof).", "common.Read"), 8))
 	Props["C16"] = spec("static decision of the scalar-encoding structure (DESIGN 4 C16): no decoder writes the slice it is given (W1); the canonical decoder accepts exactly Cmp(value, r) = -1 on the integer built from the input (D4); SetBigInt's fast path / zero / reduce decision is exhaustive and correct on all 9 outcomes (D4). Mod and Montgomery arithmetic not decided.",
 		RuleW1(nameHas("fr.Element).Set", "fr.Element).set", "common.ReadScalar", "fr.Element).Bytes", "fr.Element).Marshal"), 10), RuleD4("canonical", "setbigint"), RuleK4, RuleK1K2)
 	Props["C02"] = spec("static decision of the structural soundness clauses (DESIGN 4 C02): accept only from the group-equation comparison (F5), shape checks dominate acceptance and the indexings they protect (F6), every statement/proof component is absorbed with its own index before acceptance (F3,F4), prover/verifier/spec schedules agree (F1,F2), Equal rejects the all-zero pseudo-point on all 16 outcomes (E1,E4). The verification equation itself is not decided.",
-		RuleF1F2(), RuleF3, RuleF4(), RuleF5, RuleF6, RuleE1, RuleK6)
+		RuleF1F2(), RuleF3, RuleF4(), RuleF5, RuleF6, RuleF7, RuleE1, RuleK6)
 	Props["C13"] = spec("static may-write analysis (DESIGN 3.1): for every function of the module, the caller-visible locations it may write are within tables/purity.tsv; globals written only by initialisers; configuration fields only by constructors; commitments only through BatchNormalize. Value-level clause ('Cs stay Equal') not decided.",
 		RuleW1(nil, 90), RuleW2(30), RuleW3, RuleW4)
 	Props["C14"] = spec("static decision of the transcript's structural clauses (DESIGN 4 C14): unconditional complete appends, challenge hash-chain ordering and dataflow, canonical encodings absorbed, protocol label first (F7); transcript methods write only their receiver, never labels/messages (W1). SHA-256 and the numeric reduction are not decided.",
